@@ -78,6 +78,12 @@ type Machine struct {
 	chanCaps      map[string]Term
 	queryOf       map[*Obligation]string
 	divCache      map[string][2]Term
+	initCells     map[cellKey]Value
+	uninterpNames map[string]string
+	uninterpUsed  map[string]bool
+	allocInfo     map[string]allocRec
+	reflectWrites []reflectWrite
+	objFull       map[*Obj]Term // backing object of a converted string -> the full sequence term
 	knownRegion   func(fn, kind, label string) (string, bool)
 	regionEnv     *Env
 	inCanary      bool
@@ -101,13 +107,16 @@ type runCtx struct {
 	noSafety   bool
 	allocCheck bool
 	curResults []Value
+	entryObjN  int
+	freshTerms map[string]bool
+	config     map[string]bool
 }
 
 func newMachine(prog *ssa.Program, pkg *ssa.Package, cf *ContractFile, pre *Prelude) *Machine {
 	return &Machine{prog: prog, pkg: pkg, fset: prog.Fset, contracts: cf, prelude: pre, syms: newSymTab(),
 		facts: map[string][]Term{}, strLits: map[string]Term{}, typeConst: map[string]Term{},
 		globals: map[*ssa.Global]*Obj{}, globalMem: map[cellKey]Value{}, loopInfo: map[*ssa.Function]*LoopInfo{},
-		maxPaths: 20000, inlineMax: 6, warned: map[string]bool{}, ifacePayload: map[string]Value{}, provenance: map[*Obj]Term{}, sliceTok: map[*Obj]Term{}, runeStr: map[string]runeWindow{}, chanCaps: map[string]Term{}, divCache: map[string][2]Term{}}
+		maxPaths: 20000, inlineMax: 6, warned: map[string]bool{}, ifacePayload: map[string]Value{}, provenance: map[*Obj]Term{}, sliceTok: map[*Obj]Term{}, runeStr: map[string]runeWindow{}, chanCaps: map[string]Term{}, divCache: map[string][2]Term{}, initCells: map[cellKey]Value{}, uninterpNames: map[string]string{}, uninterpUsed: map[string]bool{}, allocInfo: map[string]allocRec{}, objFull: map[*Obj]Term{}}
 }
 
 type unsupported struct{ msg string }
@@ -210,7 +219,7 @@ func (m *Machine) sortOf(t types.Type) Sort {
 			return SRT
 		}
 		return ""
-	case *types.Slice, *types.Array:
+	case *types.Slice, *types.Array, *types.Tuple:
 		return ""
 	}
 	if typeString(t) == "reflect.Type" {
@@ -271,6 +280,9 @@ func (m *Machine) zeroTerm(s Sort) Term {
 }
 
 func (m *Machine) strLit(s string) Term {
+	if s == "" {
+		return Sym("str.empty", SStr)
+	}
 	if t, ok := m.strLits[s]; ok {
 		return t
 	}
@@ -324,12 +336,14 @@ func (m *Machine) freshValue(name string, t types.Type) Value {
 	case *types.Slice:
 		es := m.elemSort(u.Elem())
 		obj := m.newObj(name, u.Elem(), true, es)
+		obj.Sym = true
 		ln := m.syms.fresh(name+".len", SBV64)
 		cp := m.syms.fresh(name+".cap", SBV64)
 		sl := &SliceV{Obj: obj, Off: BVLitI(0, 64), Len: ln, Cap: cp, Nil: m.syms.fresh(name+".nil", SBool)}
 		return sl
 	case *types.Pointer:
 		obj := m.newObj(name, u.Elem(), false, "")
+		obj.Sym = true
 		return &PtrV{Obj: obj, Typ: t}
 	case *types.Struct:
 		sv := &StructV{Typ: t}
@@ -391,8 +405,13 @@ func (m *Machine) loadCell(st *State, obj *Obj, path []int, typ types.Type) Valu
 	if v, ok := m.globalMem[k]; ok {
 		return v
 	}
-	// lazily materialise a symbolic initial value
-	v := m.freshValue(obj.Name+pathName(obj, path), typ)
+	// lazily materialise the symbolic initial value; it is shared by all states
+	// (so that old(e.f) and e.f denote the same value when e.f was never written)
+	v, ok := m.initCells[k]
+	if !ok {
+		v = m.freshValue(obj.Name+pathName(obj, path), typ)
+		m.initCells[k] = v
+	}
 	if sl, ok := v.(*SliceV); ok {
 		m.sliceWF(st, sl)
 	}
@@ -474,6 +493,10 @@ func (m *Machine) store(st *State, p *PtrV, v Value) {
 		return
 	}
 	st.mem[cellKey{p.Obj, pathKey(p.Path)}] = v
+	if st.written == nil {
+		st.written = map[cellKey]bool{}
+	}
+	st.written[cellKey{p.Obj, pathKey(p.Path)}] = true
 }
 
 // packTerm converts a structural value into a term of the wanted sort (used
@@ -789,6 +812,7 @@ func (m *Machine) step(c *Config, onReturn returnHandler) (*Config, []*Config) {
 		m.mapUpdate(c, x)
 		return c, nil
 	case *ssa.Send:
+		m.emit(c, "nonblocking", c.top.fn.Name(), []string{"C17"}, TFalse, m.site(x), "blocking channel send")
 		m.unsup("channel send")
 	case ssa.Value:
 		v, forks := m.evalValue(c, x)
@@ -1063,6 +1087,7 @@ func (m *Machine) unop(c *Config, x *ssa.UnOp) Value {
 	case token.XOR:
 		return BVNot(m.termOf(c, x.X))
 	case token.ARROW:
+		m.emit(c, "nonblocking", c.top.fn.Name(), []string{"C17"}, TFalse, m.site(x), "blocking channel receive")
 		m.unsup("channel receive outside select")
 	}
 	m.unsup("unop %s", x.Op)
@@ -1472,4 +1497,55 @@ func (m *Machine) divConst(st *State, x, d Term, signed bool) (q, r Term, ok boo
 	m.addFact(r.S, Eq(q, q)) // ties r to q so that the facts of q are included whenever r occurs
 	m.divCache[key] = [2]Term{q, r}
 	return q, r, true
+}
+
+// evalInit runs the package initialiser symbolically (straight-line part) so
+// that package-level variables have their initial values.  With the package
+// frame obligations (no function stores to them) these values are invariant.
+func (m *Machine) evalInit() {
+	fn := m.pkg.Func("init")
+	if fn == nil || len(fn.Blocks) < 2 {
+		return
+	}
+	m.cur = &runCtx{fn: fn, key: "init", params: map[string]Value{}, ptypes: map[string]types.Type{}, noSafety: true, freshTerms: map[string]bool{}}
+	st := &State{mem: map[cellKey]Value{}, ghost: map[string]Value{}}
+	fr := &Frame{fn: fn, regs: map[ssa.Value]Value{}, active: map[*ssa.BasicBlock]*loopCtx{}}
+	c := &Config{st: st, top: fr}
+	for _, b := range fn.Blocks {
+		if b.Comment != "init.start" {
+			continue
+		}
+		fr.block = b
+		for _, ins := range b.Instrs {
+			func() {
+				defer func() {
+					if r := recover(); r != nil {
+						if _, ok := r.(unsupported); !ok {
+							panic(r)
+						}
+					}
+				}()
+				switch x := ins.(type) {
+				case *ssa.Call:
+					if callee := x.Common().StaticCallee(); callee != nil && (callee.Name() == "init" || strings.HasPrefix(callee.Name(), "init#")) {
+						return
+					}
+					m.doCall(c, x)
+				case *ssa.Store:
+					if p, ok := m.operand(c, x.Addr).(*PtrV); ok {
+						m.store(st, p, m.operand(c, x.Val))
+					}
+				case ssa.Value:
+					v, _ := m.evalValue(c, x)
+					if v != nil {
+						fr.regs[x] = v
+					}
+				}
+			}()
+		}
+	}
+	for k, v := range st.mem {
+		m.globalMem[k] = v
+	}
+	m.cur = nil
 }
